@@ -3,7 +3,7 @@ from sim.values import assign_hashes, order_signature, HASH_MODES
 from gens.pda import VS
 from models.fst import Fst
 
-STATES = ["a", "a0", "a1", "b", "a00", "q"]      # names that collide under the library's renaming scheme
+STATES = ["a", "a0", "a1", "b", "a00", "q", "kleene_star", "kleene_star0"]      # names that collide under the library's renaming scheme
 INT_STATES = ["0", "1", "2", "3"]
 INPUTS = ["x", "y"]
 OUTPUTS = ["u", "v"]
